@@ -66,6 +66,13 @@ func Build(c Cfg, dst io.Writer) (w *wsutil.Writer, ok bool) {
 		w = wsutil.NewWriterBufferSize(dst, st, c.OpCode, c.N)
 	case "NewWriterBuffer":
 		w = wsutil.NewWriterBuffer(dst, st, c.OpCode, make([]byte, c.N))
+	case "NewWriterBuffer/spare-cap":
+		// a caller-supplied buffer that is a prefix of a larger array (pooled slice, sub-slice)
+		big := make([]byte, 4*c.N+64)
+		for i := range big {
+			big[i] = 0xCC
+		}
+		w = wsutil.NewWriterBuffer(dst, st, c.OpCode, big[:c.N])
 	case "GetWriter":
 		w = wsutil.GetWriter(dst, st, c.OpCode, c.N)
 	default:
